@@ -394,7 +394,7 @@ void Exec::op_cache(const Json& o,const std::string& op){
   // burst: n vectors of one dimension created and destroyed, so that the cache-full and cache-miss paths run
   long d=o["d"].as_int(3); if(d<2||d>6) d=3;
   long n=o["n"].as_int(34); if(n<1) n=1; if(n>48) n=48;
-  bool lifo=o["lifo"].as_bool(false);
+  bool lifo=o["lifo"].as_bool(false); bool refill=o["refill"].as_bool(false); long shared=-1;
   begin(op,"C15");
   int rc=lib_call(c,[&]{
     std::vector<SU_vector> pool;
@@ -402,8 +402,15 @@ void Exec::op_cache(const Json& o,const std::string& op){
     for(long i=0;i<n;i++){ pool.emplace_back((unsigned)d); pool.back()[0]=(double)i; }
     if(lifo) while(!pool.empty()) pool.pop_back();
     else pool.clear();
+    if(refill){
+      // as many again, all alive at once: each must have storage of its own, whatever the cache handed back
+      for(long i=0;i<n;i++){ pool.emplace_back((unsigned)d); for(long k=0;k<d*d;k++) pool.back()[(unsigned)k]=(double)(i*100+k); }
+      for(long i=0;i<n&&shared<0;i++){ for(long k=0;k<d*d;k++) if(pool[(size_t)i][(unsigned)k]!=(double)(i*100+k)){ shared=i; break; } }
+      pool.clear();
+    }
   });
   bool fired=end();
+  if(shared>=0 && rc==CALL_OK){ violation(c,"C08","model:storage-overlap","burst:refill","after "+std::to_string(n)+" vectors of dimension "+std::to_string(d)+" were destroyed and as many created again, vector "+std::to_string(shared)+" of the new ones lost its value: it shares storage with another live vector"); return; }
   settle(rc,fired,false,"C15","C15","burst",true);
   if(n>32){ nontrivial=true; c.ctr->add("probe_cache_full"); }
   shp(op); shp(d); check_all(c,"C15",op);
